@@ -1,4 +1,5 @@
 // One translation unit per (H_ORDER, H_DIM): the `spline` operation on Cubic/Quintic/SepticSplineND<H_DIM>.
+#include <utility>
 #include "common.hpp"
 #include "SplineTrajectory.hpp"
 
@@ -112,6 +113,7 @@ namespace
         qorder %= 10;
         std::unique_ptr<Spline> fresh, tmp;
         Spline *sp;
+        decltype(&std::declval<const Spline &>().getTrajectory()) heldTraj = nullptr;
         auto make = [&]() {
             return (mode == "tp") ? new Spline(times, P, bc) : new Spline(times, P, t0, bc);
         };
@@ -136,7 +138,10 @@ namespace
         }
         else
         {
+            const bool existed = slots().count(slot) != 0;
             sp = &slots()[slot];
+            // a caller may keep the reference `getTrajectory()` returned before the update and go on using it afterwards
+            if (existed) heldTraj = &sp->getTrajectory();
             if (bvar == 1)
             {
                 // first through the other overload, then again through the object's own members
@@ -263,7 +268,8 @@ namespace
         auto q_eval = [&]() {
             R.evs.clear();
             for (auto &e : evq)
-                R.evs.push_back(sp->getTrajectory().evaluate(e.first, (int)e.second));
+                R.evs.push_back(heldTraj ? heldTraj->evaluate(e.first, (int)e.second)
+                                         : sp->getTrajectory().evaluate(e.first, (int)e.second));
         };
         std::vector<std::function<void()>> qs = {q_struct, q_energy, q_partials, q_egrad, q_prop, q_eval};
         if (qorder == 1 || qorder == 3)
